@@ -122,6 +122,12 @@ func (g *Gen) coerce(a, b tvT) (tvT, tvT, types.Type) {
 	} else if b.lit != nil && a.lit == nil && a.gt != nil && isInteger(a.gt) {
 		b = tvT{t: g.numBig(b.lit, a.gt), gt: a.gt}
 	}
+	// strkey(..) and other abstract identities are of SMT sort Int in both modes; a spec function declared
+	// `Int` is a 64-bit vector in this mode: the two cannot be compared (clause written for `arith int`)
+	if (a.sort == "Int" && a.gt == nil && b.gt != nil && (b.gt == mathInt || isInteger(b.gt)) && b.lit == nil) ||
+		(b.sort == "Int" && b.gt == nil && a.gt != nil && (a.gt == mathInt || isInteger(a.gt)) && a.lit == nil) {
+		g.fail("bit-vector width mismatch: %s (%s) vs %s (%s): abstract identity against a machine integer", a.t, a.gt, b.t, b.gt)
+	}
 	t := a.gt
 	if t == nil || t == mathInt {
 		t = b.gt
